@@ -54,6 +54,40 @@ def magic_of(data):
     return "none"
 
 
+def sniff_history():
+    """argv[2] = JSON {"dir":, "hist": [["register", name] | ["load", compressor name | "none"], ...]}: one history of Sniffing.tla in this
+    fresh interpreter; every load must give the object back from a path, a buffered file, an unbuffered file and an in-memory buffer"""
+    import io, joblib
+    from joblib.compressor import CompressorWrapper, BinaryZlibFile, register_compressor
+    job = json.load(open(sys.argv[2])); d = job["dir"]; os.makedirs(d, exist_ok=True)
+    MAGIC = {"c3": bytes([86, 90, 51]), "c9": bytes([86, 69, 82, 73, 70, 45, 76, 78, 71])}
+    problems = []
+
+    def make(name):
+        class PrefixedZlib(CompressorWrapper):
+            def __init__(self): super().__init__(obj=BinaryZlibFile, prefix=MAGIC[name], extension="." + name)
+            def compressor_file(self, fileobj, compresslevel=None):
+                fileobj.write(MAGIC[name]); return BinaryZlibFile(fileobj, "wb", compresslevel=compresslevel or 3)
+            def decompressor_file(self, fileobj):
+                got = fileobj.read(len(MAGIC[name])); assert got == MAGIC[name], got
+                return BinaryZlibFile(fileobj, "rb")
+        return PrefixedZlib()
+    for k, (op, x) in enumerate(job["hist"]):
+        if op == "register":
+            register_compressor(x, make(x)); continue
+        obj = {"step": k, "payload": ["x" * 50, (1.5, None)]}
+        path = os.path.join(d, "h%d.bin" % k)
+        with open(path, "wb") as fh: joblib.dump(obj, fh, compress=0 if x == "none" else (x, 3))
+        data = open(path, "rb").read()
+        for name, fn in (("path", lambda: joblib.load(path)), ("buffered file", lambda: joblib.load(open(path, "rb"))), ("unbuffered file", lambda: joblib.load(open(path, "rb", buffering=0))),
+                         ("in-memory buffer", lambda: joblib.load(io.BytesIO(data)))):
+            try:
+                if fn() != obj: problems.append({"step": k, "via": name, "what": "another object"})
+            except Exception as ex:
+                problems.append({"step": k, "via": name, "what": "raised " + repr(ex)[:100]})
+    json.dump(problems, open(sys.argv[2] + ".out", "w"))
+
+
 def main():
     job = json.load(open(sys.argv[1]))
     import joblib
@@ -209,5 +243,7 @@ def main():
     json.dump(out, open(sys.argv[1] + ".out", "w"))
 
 
-if __name__ == "__main__":
+if __name__ == "__main__" and len(sys.argv) > 2 and sys.argv[1] == "--sniff":
+    sniff_history()
+elif __name__ == "__main__":
     main()
